@@ -98,7 +98,7 @@ func (c *cv) genOp(pl *plan) mutOp {
 		return cuts
 	}
 	for try := 0; try < 6; try++ {
-		switch src.Pick(4, 3, 3, 3, 2, 1, 3, 3, 2, 2, 1) {
+		switch src.Pick(4, 3, 3, 3, 2, 1, 3, 3, 2, 2, 1, 2) {
 		case 0: // create + write in place
 			d := pickKey(src, existingDirs)
 			if d == "" {
@@ -113,6 +113,7 @@ func (c *cv) genOp(pl *plan) mutOp {
 			cuts := cutsFor(len(m.Content))
 			pl.files[p] = true
 			return mutOp{fmt.Sprintf("create %s (%d writes) = %s", p, len(cuts)+1, m), func() {
+				unlinkIfSymlink(p)
 				f, err := simos.OpenFile(p, simos.O_WRONLY|simos.O_CREATE|simos.O_TRUNC, 0o644)
 				if err != nil {
 					return
@@ -128,6 +129,9 @@ func (c *cv) genOp(pl *plan) mutOp {
 			m := c.content(p)
 			cuts := cutsFor(len(m.Content))
 			return mutOp{fmt.Sprintf("rewrite %s (%d writes) = %s", p, len(cuts)+1, m), func() {
+				if unlinkIfSymlink(p) {
+					return // (a write through the link would change a file outside the watched directory)
+				}
 				f, err := simos.OpenFile(p, simos.O_WRONLY|simos.O_TRUNC, 0o644)
 				if err != nil {
 					return
@@ -253,6 +257,29 @@ func (c *cv) genOp(pl *plan) mutOp {
 					simos.WriteFile(d+"/"+name, m.Content, 0o644)
 				}
 			}}
+		case 11: // a Spec that appears as a symbolic link (to a file kept elsewhere, or dangling)
+			d := pickKey(src, existingDirs)
+			if d == "" {
+				continue
+			}
+			name := specNames[src.Intn(len(specNames))]
+			p := d + "/" + name
+			c.nextID++
+			target := fmt.Sprintf("/staging/target%d", c.nextID)
+			dangling := src.Bool(1, 3)
+			m := c.content(name)
+			pl.files[p] = true
+			desc := fmt.Sprintf("symlink %s -> %s = %s", p, target, m)
+			if dangling {
+				desc = fmt.Sprintf("symlink %s -> %s (dangling)", p, target)
+			}
+			return mutOp{desc, func() {
+				if !dangling {
+					simos.WriteFile(target, m.Content, 0o644)
+				}
+				simos.Remove(p)
+				simos.Symlink(target, p)
+			}}
 		case 9: // remove a directory tree
 			d := pickKey(src, existingDirs)
 			if d == "" {
@@ -287,6 +314,17 @@ func (c *cv) genOp(pl *plan) mutOp {
 		}
 	}
 	return mutOp{"no-op", func() {}}
+}
+
+// unlinkIfSymlink removes p if it is a symbolic link: writing "in place" through
+// a link changes a file that lives outside the watched directory, which raises
+// no event there and is not among the changes the property lists.
+func unlinkIfSymlink(p string) bool {
+	if fi, err := simos.Lstat(p); err == nil && fi.Mode()&simos.ModeSymlink != 0 {
+		simos.Remove(p)
+		return true
+	}
+	return false
 }
 
 // observation of a cache through queries only
